@@ -55,3 +55,12 @@ func VerifEntries(m SemMapper) int {
 	}
 	return n
 }
+
+// VerifHoldMutex locks the mutex of the map (shard) that serves key and returns the function that
+// unlocks it.  A harness uses it to let several calls queue on the mutex in a chosen order and then
+// run their critical sections back to back.
+func VerifHoldMutex(m SemMapper, key interface{}) (unlock func()) {
+	var s = verifShard(m, key)
+	s.mux.Lock()
+	return s.mux.Unlock
+}
